@@ -84,6 +84,14 @@ Theorem C12_slots_after_sequential : forall t,
   accepts t = true -> slots_after R k limit res t = Some sequential.
 Proof. exact (slots_after_sequential R k limit res). Qed.
 
+(* the model side of a `parallel` case (controller opening the gates in a given order) is a complete
+   execution of the LTS with exactly these observables, for every order *)
+Theorem C12_simulate_sound : forall order, 1 <= limit -> NoDup order -> (forall j, In j order -> j < k) ->
+  let o := simulate R k limit res order in
+  o_returned o = true /\ o_slots o = sequential /\ o_sat o = Nat.min k limit /\
+  o_early o = false /\ o_over o = false /\ accepts (o_trace o) = true.
+Proof. exact (simulate_sound R k limit res). Qed.
+
 (* everything except the memory-model clause, in one statement *)
 Definition C12_model_statement : Prop :=
   1 <= limit ->
@@ -109,6 +117,7 @@ Print Assumptions C12_maximal_returns.
 Print Assumptions C12_limit0_stuck.
 Print Assumptions C12_accepts_iff.
 Print Assumptions C12_slots_after_sequential.
+Print Assumptions C12_simulate_sound.
 Print Assumptions C12_all_schedules_partial.
 
 (* ---- non-vacuity: concrete executions with 3 algorithms, limit 2 ---- *)
@@ -139,3 +148,10 @@ Proof.
   eexists. split; [repeat (econstructor; [vm_compute; reflexivity|]); constructor|].
   vm_compute. repeat split; reflexivity.
 Qed.
+
+(* the controller-driven run: gates opened in the order 2,0,1 with limit 2 *)
+Example C12_nonvacuous_simulate :
+  o_trace (simulate nat 3 2 (fun i => i) [2; 0; 1]) =
+    [EStart 0; EStart 1; EDone 0; EStart 2; EDone 2; EDone 1; EReturn] /\
+  o_sat (simulate nat 3 2 (fun i => i) [2; 0; 1]) = 2.
+Proof. vm_compute. split; reflexivity. Qed.
